@@ -492,8 +492,12 @@ class Monitor(object):
         self.dump_seen[nid] = sig
         try:
             with open(fn, 'rb') as f:
-                with gzip.GzipFile(fileobj=f) as gz:
-                    data = pickle.load(gz)
-            assert len(data) == 4
+                if rec.cfg.get('custom'):
+                    hist, data = pickle.load(f)
+                    assert len(data) == 3
+                else:
+                    with gzip.GzipFile(fileobj=f) as gz:
+                        data = pickle.load(gz)
+                    assert len(data) == 4
         except Exception as e:
             self.rec('C09', 'dump file of node %d is not a complete snapshot (%s)' % (nid, type(e).__name__))
